@@ -23,6 +23,7 @@ import MW.Lemmas.LedgerHistoryEx
 import MW.Lemmas.LedgerIssueEx
 import MW.Lemmas.LedgerAbs2
 import MW.Lemmas.LedgerObsEx
+import MW.Lemmas.LedgerD2Ex
 namespace MW.Props.C01
 open MW MW.Model.Ledger MW.Spec.Chain MW.Spec.Books MW.Lemmas.Ledger
 
@@ -247,5 +248,16 @@ example := @late_issue_breaks
 
 /-- the hypothesis `reorgNonempty` of `RunHyp` is necessary: a bare detach announces nothing -/
 example := @bare_detach_breaks
+
+/-- the D2 witness: the wallet has G–B1–B2, the node G–B1–B2a–B3a where B2a pays the wallet 10 and B3a spends
+    it; ONE notification (B3a) makes the follower roll back B2 and connect B2a and B3a in one database
+    transaction. Every hypothesis of `reorg_reaches` holds (`d2ReorgHyp`, nothing assumed) and the computed
+    store shows no coin and balance 0 (the historical defect showed "10 / 1 utxo") -/
+example : ReorgHyp d2Ctx d2S := d2ReorgHyp
+example (v : Vol) (hv : v.best = tipMeta d2S) :
+    ∃ v', processBlock d2Ctx d2SS v d2B3a = (d2S1, v', true) ∧ Inv d2Ctx d2S1 d2N ∧ v'.best = ⟨3, "B3a"⟩ :=
+  d2Process v hv
+example : (coinsOf d2S1 "W1").length = 0 ∧ walletBalance d2S1 "W1" 1 = some ⟨0, 0, 0, 0⟩ := d2After
+example : d2Rolled = [2] ∧ d2Added = [(2, ["T1"]), (3, ["T2"])] := d2Report
 
 end MW.Props.C01
